@@ -811,9 +811,11 @@ Definition cd_fields : list nsfield :=
    fld "output" KStr false; fld "progress" KBool false; fld "distance_metric" KStr false; fld "distance_metric_param" KKV true].
 (* ev_args *)
 Definition ev_fields : list nsfield := [fld "screen" KStr false; fld "thetas" (KList KStr) false; fld "output" KStr false].
-(* analyze_model_evaluation.main (not translated) reads these four *)
+(* an_args (Model/CliAnalyze.v): what the translated analyze_model_evaluation.main reads - the four paths and, since the repair
+   "fix: analyze_model_evaluation ignored --seed", args.seed (handed to the two regplot-drawing plots) *)
 Definition am_fields : list nsfield :=
-  [fld "model_evaluation" KStr false; fld "screen" KStr false; fld "thetas" (KList KStr) false; fld "output_dir" KStr false].
+  [fld "model_evaluation" KStr false; fld "screen" KStr false; fld "thetas" (KList KStr) false; fld "output_dir" KStr false;
+   fld "seed" KInt false].
 
 (* ---------- properties of a table as a whole ---------- *)
 (* the reader's dest is argparse's derivation *)
